@@ -239,6 +239,10 @@ func (r *Report) OnExec(x *Exec, counted bool) {
 	}
 	r.AddCase(x.NonTriv, cls, x.Obs)
 	for t := range x.Tags {
+		if strings.HasPrefix(t, "known-not-violating:") {
+			r.KnownNotViolating(strings.TrimPrefix(t, "known-not-violating:"))
+			continue
+		}
 		r.Tags[t]++
 	}
 	if x.Fail != nil {
